@@ -289,7 +289,7 @@ PROPS = {
         engine="cluster-simulator",
     ),
     "C05": dict(
-        lean_modules=['Swim.Lemmas.Merge', 'Swim.Props.C02', 'Swim.Props.C09', 'Swim.Props.C05', 'Swim.Model.Cluster', 'Swim.Props.Cluster', 'Swim.Props.ClusterG', 'Swim.Props.C02Cluster', 'Swim.Props.C05Cluster', 'Swim.Props.Projection', 'Swim.Props.C04Cluster', 'Swim.Props.C05Recover', 'Swim.Props.C09Cluster', 'Swim.Props.C05Converge', "Swim.Props.Scale"],
+        lean_modules=['Swim.Lemmas.Merge', 'Swim.Props.C02', 'Swim.Props.C09', 'Swim.Props.C05', 'Swim.Model.Cluster', 'Swim.Props.Cluster', 'Swim.Props.ClusterG', 'Swim.Props.C02Cluster', 'Swim.Props.C05Cluster', 'Swim.Props.Projection', 'Swim.Props.C04Cluster', 'Swim.Props.C05Recover', 'Swim.Props.C09Cluster', 'Swim.Props.C05Converge', "Swim.Props.Scale", "Swim.Model.Probe", "Swim.Props.C03"],
         tests="^TestC05(Cluster)?$",
         timeout_quick=400,
         shards_quick=4,
